@@ -14,7 +14,7 @@ HEADER = ("From Coq Require Import ZArith List.\n"
           "From TV Require Import Common.Harness Common.LMap C06.Model C06.Law C06.Corr.")
 CASE_T = "C06.Corr.case"
 PROPS = ["C06/Props.v"]
-CLAUSE = {1: "outcome-class", 2: "contents", 3: "failing-op-effect", 8: "return-value",
+CLAUSE = {1: "outcome-class", 2: "contents", 3: "failing-op-effect", 8: "return-value", 9: "insertion-order",
           4: "several-events", 5: "missing-event", 6: "reconstruction", 7: "all-empty-event",
           14: "several-events@notifier-after-observer", 15: "missing-event@notifier-after-observer",
           16: "reconstruction@notifier-after-observer", 17: "all-empty-event@notifier-after-observer",
